@@ -549,7 +549,7 @@ impl Reg {
                     })
                     .collect::<Vec<N>>();
 
-                let delta = n.iter().sum::<N>() as Z - count as Z;
+                let delta = n.iter().map(|&n| n as i128).sum::<i128>() - count as i128;
 
                 (n, delta)
             }
@@ -573,7 +573,7 @@ impl Reg {
                     })
                     .collect::<Vec<N>>();
 
-                let delta = n.par_iter().sum::<N>() as Z - count as Z;
+                let delta = n.par_iter().map(|&n| n as i128).sum::<i128>() - count as i128;
 
                 (n, delta)
             }),
@@ -581,7 +581,7 @@ impl Reg {
         match delta.cmp(&0) {
             Ordering::Less => {
                 // spread the deficit over the outcomes that can actually occur
-                let delta = delta.unsigned_abs();
+                let delta = delta.unsigned_abs() as N;
                 let possible = p.iter().filter(|&&p| p > 0.0).count().max(1);
                 let delta = (delta / possible, delta % possible);
                 for (idx, (n, _)) in n
